@@ -122,7 +122,7 @@ def reused_object_history(ctx, kind, n, seed, steps, which, be='np'):
                 alive.append((name, res, got))
                 del alive[:-4]
         else:
-            op = rng.choice(['sign', 'setps'] if sign_mode else ['sign', 'setps', 'rotate', 'transform', 'copy', 'measure'])
+            op = rng.choice(['sign', 'setps'] if sign_mode else ['sign', 'setps', 'rotate', 'rotate', 'mrotate', 'mtransform', 'transform', 'copy', 'measure'])
             hist.append(op)
             if op == 'sign':
                 _sign_only(M, obj, rng, n)
@@ -131,6 +131,15 @@ def reused_object_history(ctx, kind, n, seed, steps, which, be='np'):
                 obj.ps[j] = (int(obj.ps[j]) + 2) % 4
             elif op == 'rotate':
                 obj.rotate_by(M.P(gen.rpauli(rng, n, herm=True)))
+            elif op in ('mrotate', 'mtransform') and n >= 2:
+                # masked updates write the masked columns of the SAME arrays (no new array object is bound)
+                k = rng.randint(1, n - 1)
+                mk = gen.rmask(rng, n, k)[0]
+                mask = np.array(mk, dtype=bool) if be == 'np' else __import__('torch').tensor([bool(b) for b in mk])
+                if op == 'mrotate':
+                    obj.rotate_by(M.P(gen.rpauli(rng, k, herm=True, nonzero=True)), mask=mask)
+                else:
+                    obj.transform_by(M.CM(gen_map(rng, k)), mask=mask)
             elif op == 'transform':
                 obj.transform_by(M.CM(gen_map(rng, n)))
             elif op == 'copy':
